@@ -118,13 +118,17 @@ theorem c14g_sizes_are_model :
     (∀ p, params_serialized_size p = paramsSerializedSize p) ∧ (∀ p, params_serialized_size p = paramsC.size p) ∧
     (∀ p, plain_serialized_size p = plainSerializedSize p) ∧
     (∀ q, q < 2 ^ 64 → get_u64_limit q = .ok (u64Limit q) ∧ u64Limit q ≤ 8) ∧
-    (∀ lv v, ct_serialized_full_size lv v = ctSerializedFullSize lv (fullSentV v)) ∧
-    (∀ lv v, (∀ q ∈ lv.moduli, q < 2 ^ 64) → ct_serialized_size lv v = .ok (ctSerializedSize lv v.size v.seeded)) ∧
-    (∀ lv v tc, (∀ q ∈ lv.moduli, q < 2 ^ 64) → (v.seeded = true ∨ 1 ≤ v.size) →
-        ct_serialized_terms_size lv v tc = .ok (ctSerializedTermsSize lv v.size v.seeded tc)) := by
+    (∀ ctx lv v, ctx.find v.pid = some lv → ct_serialized_full_size ctx v = .ok (ctSerializedFullSize lv (fullSentV v))) ∧
+    (∀ ctx lv v, ctx.find v.pid = some lv → (∀ q ∈ lv.moduli, q < 2 ^ 64) →
+        ct_serialized_size ctx v = .ok (ctSerializedSize lv v.size v.seeded)) ∧
+    (∀ ctx lv v tc, ctx.find v.pid = some lv → (∀ q ∈ lv.moduli, q < 2 ^ 64) → (v.seeded = true ∨ 1 ≤ v.size) →
+        ct_serialized_terms_size ctx v tc = .ok (ctSerializedTermsSize lv v.size v.seeded tc)) ∧
+    (∀ ctx v tc, ctx.find v.pid = none → ct_serialized_full_size ctx v = .error .other ∧ ct_serialized_size ctx v = .error .other ∧
+        ct_serialized_terms_size ctx v tc = .error .other) := by
   refine ⟨fun _ => rfl, fun _ => rfl, fun _ => rfl, fun _ => rfl, fun _ => rfl, fun _ => rfl, fun _ => rfl, ?_,
     fun l => gr_vec_size _ u64C rfl l, fun l => gr_vec_size _ modulusC rfl l, gr_params_size, ?_, gr_plain_size,
-    fun q hq => ⟨gr_get_u64_limit q hq, gl_u64Limit_le q hq⟩, gr_ct_full_size, gr_ct_size, gr_ct_terms_size⟩
+    fun q hq => ⟨gr_get_u64_limit q hq, gl_u64Limit_le q hq⟩, gr_ct_full_size, gr_ct_size,
+    fun ctx lv v tc h1 h2 h3 => gr_ct_terms_size ctx lv v tc h1 h2 h3, gr_ct_sizes_unknown_pid⟩
   · intro l hl
     match l, hl with
     | [a, b, c, d], _ => rfl
